@@ -26,3 +26,6 @@ Qed.
 
 Lemma gen_forget_savepoints_checked : gen_forget_savepoints_drops_the_sessions_entries = true.
 Proof. reflexivity. Qed.
+
+Lemma gen_release_checked : gen_release_drops_the_entry_of_the_released_savepoint = true.
+Proof. reflexivity. Qed.
